@@ -57,7 +57,7 @@ def check(rep, model, tier):
         impl, ctx = keep[('None', pad, 'n_cycles')]
         inst = f'pad={pad}'
         if impl is None or impl[0] != 'tuple' or len(impl[1]) != 2:
-            rep.unresolved('PROVENANCE', inst, site, f'result is not a (peaks, troughs) pair: {T.brief(impl) if impl else None}')
+            rep.violation('PROVENANCE', inst, site, expected='a (peaks, troughs) pair', found=T.brief(impl, 200) if impl else 'no value is returned on this path (raises)')
             continue
         peaks, troughs = impl[1]
         raw_ok, pol_ok, why = True, True, []
@@ -138,7 +138,7 @@ def check(rep, model, tier):
             found_v = None
             for da, db in ((d1, d2), (d2, d1)):
                 V = T.add(da, bnd)                      # da == V - boundary
-                if db == T.lin(0, [(('len', SIG), 1), (bnd, -1), (V, -1)]):
+                if db == T.lin(0, [(('len', SIG), 1), (bnd, -1), (V, -1)]) and ('len', SIG) not in set(T.walk(V)):
                     found_v = V
             if found_v is None:
                 okb = False
@@ -169,11 +169,14 @@ def check(rep, model, tier):
 
 def strip_tail(comp):
     """the array of arg-extrema before un-padding / boundary filtering / trimming"""
-    arrs = [x for x in T.walk(comp) if x[0] == 'arr' and x[1][0] == 'call' and x[1][1] == 'zeros']
+    arrs = [x for x in T.walk(comp) if (x[0] == 'arr' and x[1][0] == 'call' and x[1][1] == 'zeros') or
+            (x[0] == 'map' and any(y[0] == 'call' and y[1] in ('argmax', 'argmin') for y in T.walk(x[2])))]
     return max(arrs, key=lambda a: len(repr(a))) if arrs else comp
 
 
 def stored_values(arr):
+    if arr and arr[0] == 'map':
+        return [arr[2]]
     return [s[1] for s in arr[2]] if arr and arr[0] == 'arr' else []
 
 
